@@ -326,6 +326,7 @@ def prop_C19(ctx):
         + gen.c03_cases(ctx.rng, 500 if ctx.tier == 'quick' else 5000) + gen.c03_hinted_cases(ctx.rng, 400 if ctx.tier == 'quick' else 4000) \
         + gen.c02_cases(ctx.rng, 300 if ctx.tier == 'quick' else 3000)       # several groups / ghost-only child paths / ghost arms per input
     recs = ctx.run_set('determinism', items, vlib.obs_full, flags=('--twice',))
+    recs += ctx.run_set('reserved_names', gen.reserved_name_cases(ctx.rng, 300 if ctx.tier == 'quick' else 3000), vlib.obs_full, flags=('--twice',))
     cases = [(r['id'], r['text']) for r in recs]
     same_proc = 0
     for r in recs:
@@ -1450,11 +1451,15 @@ def pat_matches(pat, lit):
     """does the (integer or string) literal `lit` match pattern text `pat`?  None when not decidable here"""
     pat = oracles.nsp(pat)
     lit = oracles.nsp(lit)
+    undecided = False
     for alt in pat.split('|'):
         if alt == '_':
             return True
         if alt == lit:
             return True
+        if re.fullmatch(r'[^\W\d]\w*(::\w+)*', alt):
+            undecided = True          # a constant (or a binding): its value is not known here
+            continue
         m = re.fullmatch(r'(-?\w+(?:::\w+)?)\.\.(=?)(-?\w+(?:::\w+)?)?', alt)
         if m and re.fullmatch(r'-?\d+', lit):
             def num(x):
@@ -1470,7 +1475,7 @@ def pat_matches(pat, lit):
                     return True
             elif lo <= v and (v <= hi if m.group(2) else v < hi):
                 return True
-    return False
+    return None if undecided else False
 
 
 def prop_C09(ctx):
@@ -1959,6 +1964,13 @@ def c11_problems(it, key, imp):
         else:
             decl_names.append(re.match(r'(\w+)', g).group(1))
     dups = sorted(set(x for x in decl_names if decl_names.count(x) > 1))
+    taken_o2o = 'o2o' in own_lts or 'o2o' in cp_lts_all or any(re.search(r"'o2o\b", a) for a in cp_args)
+    if taken_o2o:
+        # the `fresh` lifetime is not fresh when a lifetime of the deriving type or of the counterpart path is itself called 'o2o
+        if dups == ["'o2o"]:
+            return ["o2o-not-fresh: 'o2o is already a lifetime of the mapped types and is declared a second time on the impl (impl generics %r)" % gens]
+        if not dups:
+            return []          # no by-reference impl with relevant lifetimes: nothing was added
     if dups:
         probs.append('declared more than once on the impl: %s (impl generics %r)' % (dups, gens))
     # the deriving type's parameters are declared (with their bounds, without defaults)
@@ -2030,7 +2042,7 @@ def prop_C11(ctx):
             n += 1
             for p in c11_problems(r['item'], key, imp):
                 ctx.report(r, 'impl (%s, fallible=%s, %s): %s' % (key[0], key[1], key[2], p), 'header facts read off the syn-parsed impl',
-                           key='nested-lifetime' if p.startswith('nested-lifetime') else 'header:' + p.split(' ')[0])
+                           key='nested-lifetime' if p.startswith('nested-lifetime') else ('o2o-not-fresh' if p.startswith('o2o-not-fresh') else 'header:' + p.split(' ')[0]))
     ctx.cov['impl_headers_checked'] = n
     generic_sets(ctx, ['corpus', 'comp'], obs_C11)
     return ctx.finish()
